@@ -7,6 +7,7 @@ import (
 	"io"
 	"path/filepath"
 	"reflect"
+	"sort"
 	"strconv"
 	"strings"
 )
@@ -488,6 +489,7 @@ func (n *ForNode) renderForLoop(w io.Writer, ctx *RenderContext, seq interface{}
 
 	case reflect.Map:
 		keys := val.MapKeys()
+		sortReflectKeys(keys)
 		for i, key := range keys {
 			// Set the loop variables
 			loopVars["loop"].(map[string]interface{})["index"] = i + 1
@@ -557,6 +559,33 @@ func (n *ForNode) renderForLoop(w io.Writer, ctx *RenderContext, seq interface{}
 	}
 
 	return nil
+}
+
+// sortReflectKeys orders map keys by kind-aware comparison so that map
+// iteration depends only on the keys, not on Go's randomised map order
+func sortReflectKeys(keys []reflect.Value) {
+	sort.SliceStable(keys, func(i, j int) bool {
+		a, b := keys[i], keys[j]
+		if a.Kind() == reflect.Interface {
+			a = a.Elem()
+		}
+		if b.Kind() == reflect.Interface {
+			b = b.Elem()
+		}
+		if a.IsValid() && b.IsValid() && a.Kind() == b.Kind() {
+			switch a.Kind() {
+			case reflect.String:
+				return a.String() < b.String()
+			case reflect.Int, reflect.Int8, reflect.Int16, reflect.Int32, reflect.Int64:
+				return a.Int() < b.Int()
+			case reflect.Uint, reflect.Uint8, reflect.Uint16, reflect.Uint32, reflect.Uint64, reflect.Uintptr:
+				return a.Uint() < b.Uint()
+			case reflect.Float32, reflect.Float64:
+				return a.Float() < b.Float()
+			}
+		}
+		return fmt.Sprint(keys[i]) < fmt.Sprint(keys[j])
+	})
 }
 
 // BlockNode represents a block definition
